@@ -7,6 +7,7 @@ from ..oracles import (cmd_sh, cmd_tostr, cmd_toradix, cmd_fromstr, cmd_fromradi
 from .c05 import cmd_modpow, cmd_modinv
 from .c18 import cmd_rand
 
+THOROUGH_SEEDS = 6   # the thorough tier repeats its staged workload over this many derived seeds
 RULE = ('the panic oracle over the union of all other properties\' workloads (every event records panicked / returned; the model '
         'knows the documented failure set), run in BOTH debug (debug assertions + overflow checks: an internal assertion firing on '
         'a valid input is a violation) and release, plus a dedicated table calling every checked_* method and every panicking API '
@@ -103,15 +104,17 @@ def workload(tier, seed, scale=1.0):
     cmds = table(rnd)
     for name, sc in SLICES:
         mod = importlib.import_module('nbv.props.' + name)
-        s = sc if tier == 'quick' else 1.0
-        s *= scale
-        try:
-            w = mod.workload(tier if tier != 'quick' else 'quick', seed, s)
-        except TypeError:
-            w = mod.workload('quick', seed)
-        if isinstance(w, tuple):
-            w = [c for g in w[0] for c in g] + w[1]
-        cmds += w
+        # thorough: the full quick-tier workload of every property (not their thorough tiers: the union would not fit
+        # in memory) plus a second seed of each at the slice scale
+        runs = [(seed, sc * scale)] if tier == 'quick' else [(seed, 1.0 * scale), (seed + 7919, min(1.0, 2 * sc) * scale)]
+        for sd, s in runs:
+            try:
+                w = mod.workload('quick', sd, s)
+            except TypeError:
+                w = mod.workload('quick', sd)
+            if isinstance(w, tuple):
+                w = [c for g in w[0] for c in g] + w[1]
+            cmds += w
     return cmds
 
 
